@@ -43,6 +43,10 @@ pub trait Buf: Sized {
         ensures r == self.bview().len();
     fn has_remaining(&self) -> (r: bool)
         ensures r == (self.bview().len() > 0);
+    /// `chunk()`: a contiguous prefix of the readable bytes, non-empty unless nothing remains (for Bytes / &[u8] it is
+    /// everything, for chained buffers it may be shorter)
+    fn chunk(&self) -> (r: &[u8])
+        ensures r@.len() <= self.bview().len(), r@ == self.bview().subrange(0, r@.len() as int), (r@.len() == 0) == (self.bview().len() == 0);
     fn get_u8(&mut self) -> (r: u8)
         requires old(self).bview().len() >= 1,
         ensures r == old(self).bview()[0], final(self).bview() == old(self).bview().subrange(1, old(self).bview().len() as int);
@@ -60,6 +64,8 @@ impl Buf for Bytes {
     fn remaining(&self) -> (r: usize) { unimplemented!() }
     #[verifier::external_body]
     fn has_remaining(&self) -> (r: bool) { unimplemented!() }
+    #[verifier::external_body]
+    fn chunk(&self) -> (r: &[u8]) { unimplemented!() }
     #[verifier::external_body]
     fn get_u8(&mut self) -> (r: u8) { unimplemented!() }
     #[verifier::external_body]
@@ -186,6 +192,8 @@ impl<'a> Buf for &'a [u8] {
     fn remaining(&self) -> (r: usize) { unimplemented!() }
     #[verifier::external_body]
     fn has_remaining(&self) -> (r: bool) { unimplemented!() }
+    #[verifier::external_body]
+    fn chunk(&self) -> (r: &[u8]) { unimplemented!() }
     #[verifier::external_body]
     fn get_u8(&mut self) -> (r: u8) { unimplemented!() }
     #[verifier::external_body]
